@@ -6,6 +6,14 @@ From Coq Require Import ZArith List Bool Arith Lia ZifyBool ZifyNat.
 From CPL Require Import Model.Base Model.Block Proofs.BlockProofs gen.GenFuns_C10.
 Import ListNotations.
 
+(* a list built by appending in a loop is the comprehension *)
+Lemma fold_append_map : forall {A B} (g : A -> B) (l : list A) (acc : list B),
+  fold_left (fun acc x => acc ++ [g x]) l acc = acc ++ map g l.
+Proof.
+  intros A B g l. induction l as [|x l IH]; intros acc; cbn; [now rewrite app_nil_r|].
+  rewrite IH, <- app_assoc. reflexivity.
+Qed.
+
 Lemma chunks_as_map : forall {A} (b m : nat) (l : list A), 1 <= b -> length l = m * b ->
   chunks b l = map (fun j => firstn b (skipn (j * b) l)) (seq 0 m).
 Proof.
@@ -52,7 +60,8 @@ Theorem src_block_indices_agrees : forall (init : list Z) (b m : nat), 1 <= b ->
   if m =? 0 then Raise IndexError
   else Ok (map (map Z.of_nat) (blocks_odd (m * b) b), map (map Z.of_nat) (blocks_even (m * b) b)).
 Proof.
-  intros init b m Hb Hl. cbv beta zeta delta [src_block_indices].
+  intros init b m Hb Hl. cbv beta zeta delta [src_block_indices]. autounfold with src_helpers. cbv beta zeta.
+  rewrite ?fold_append_map, ?app_nil_l.
   set (N := m * b).
   assert (Hr : src_range 0 (Z.of_nat (length init)) = map Z.of_nat (seq 0 N)).
   { unfold src_range. rewrite Z.sub_0_r, Nat2Z.id, Hl. apply map_ext. intros k. lia. }
@@ -67,7 +76,7 @@ Proof.
       replace (Z.to_nat (-1 + Z.of_nat N)) with (N - 1) by lia.
       rewrite nth_error_map, (nth_error_nth' (seq 0 N) 0) by (rewrite seq_length; lia).
       rewrite seq_nth by lia. reflexivity. }
-    rewrite Hg. cbn [bind]. f_equal. f_equal.
+    rewrite Hg. cbn [bind]. rewrite ?fold_append_map, ?app_nil_l. f_equal. f_equal.
     + unfold blocks_odd. apply (comp_chunks b m (seq 0 N)); [exact Hb | apply seq_length | slice_at_block b j].
     + assert (Hrot : [Z.of_nat (N - 1)] ++ removelast (map Z.of_nat (seq 0 N)) = map Z.of_nat (rotated N)).
       { unfold rotated. rewrite HN at 2 3. replace (S (N - 1)) with ((N - 1) + 1) by lia.
